@@ -1736,6 +1736,11 @@ tunnel_bind(int bind_fd, struct dnsfd *dns_fds)
 	if (r <= 0)
 		return 0;
 
+	/* Too short for a DNS header: it carries no id to look up
+	   (dns_get_id() would call it id 0) */
+	if (r < (int) sizeof(HEADER))
+		return 0;
+
 	id = dns_get_id(packet, r);
 
 	if (debug >= 2) {
